@@ -21,8 +21,8 @@ RULE = ("slot-allocation machine: state = sequence of envelopes handed to image 
         "{small, exactly fits, one byte too large} and (thorough) all 2^11 role subsets x 4 base addresses.")
 ASSUMPTIONS = ["svmc/refhex.py, svmc/refcbor.py, svmc/refuuid.py", "layout tables transcribed from cmd_image.py:319-505 (the property's anchors)",
                "component IDs of another shape than [INSTLD_MFST, uuid] are outside the property (nothing asserted)"]
-BOUNDS = {"quick": "sequences depth 2 over 15 letters x 2 SoCs x {defaults, build configuration, build configuration re-assigning default pairs}; 36 variants x 11 roles x 2 SoCs; full 11-role sets",
-          "thorough": "sequences depth 3; all 2^11 subsets x 2 SoCs x 4 storage base addresses"}
+BOUNDS = {"quick": "process histories depth 2 over 18 runs; sequences depth 2 over 15 letters x 2 SoCs x {defaults, build configuration, build configuration re-assigning default pairs}; 36 variants x 11 roles x 2 SoCs; full 11-role sets",
+          "thorough": "process histories depth 3; sequences depth 3; all 2^11 subsets x 2 SoCs x 4 storage base addresses"}
 
 ROLES = ["SEC_TOP", "SEC_SDFW", "SEC_SYSCTRL", "RAD_RECOVERY", "RAD_LOCAL_1", "RAD_LOCAL_2", "APP_ROOT", "APP_RECOVERY", "APP_LOCAL_1",
          "APP_LOCAL_2", "APP_LOCAL_3"]
@@ -199,11 +199,15 @@ def class_uuid_of(b):
     return cid.items[1].value
 
 
-def run_boot(seq_specs, soc, cfg, base, agg, key, label, via_main=False, sample=None):
-    """execute one sequence and compare with the reference model."""
+def run_boot(seq_specs, soc, cfg, base, agg, key, label, via_main=False, sample=None, workdir=None):
+    """execute one sequence and compare with the reference model.  -> False if a violation was reported.
+    workdir: run in this (already used) directory - same configuration path, same input names, same output directory."""
+    import contextlib
+    import shutil
     from suit_generator import cmd_image
-    with fresh_dir("c07") as d:
+    with (fresh_dir("c07") if workdir is None else contextlib.nullcontext(workdir)) as d:
         outd = os.path.join(d, "out")
+        shutil.rmtree(outd, ignore_errors=True)
         os.makedirs(outd)
         kc = None
         if cfg == "kconfig":
@@ -225,7 +229,7 @@ def run_boot(seq_specs, soc, cfg, base, agg, key, label, via_main=False, sample=
                 raise RuntimeError(f"harness: cannot build envelope {spec}: {type(e).__name__}: {e}")
             if exp == "skip":
                 agg.rej(key, "role-not-addressable-in-this-configuration", nontrivial=False)
-                return
+                return True
             p = os.path.join(d, f"e{i}.suit")
             open(p, "wb").write(b)
             files.append(p)
@@ -248,14 +252,14 @@ def run_boot(seq_specs, soc, cfg, base, agg, key, label, via_main=False, sample=
             if expect_reject:
                 if left:
                     agg.viol("C07:reject-left-files", f"{label}: rejected ({expect_reject}) but wrote {left}")
-                else:
-                    agg.rej(key, f"rejected:{type(e).__name__}", nontrivial=True)
-            else:
-                agg.viol(f"C07:unexpected-rejection/{type(e).__name__}", f"{label}: {type(e).__name__}: {str(e)[:250]}")
-            return
+                    return False
+                agg.rej(key, f"rejected:{type(e).__name__}", nontrivial=True)
+                return True
+            agg.viol(f"C07:unexpected-rejection/{type(e).__name__}", f"{label}: {type(e).__name__}: {str(e)[:250]}")
+            return False
         if expect_reject:
             agg.viol("C07:should-reject", f"{label}: {expect_reject} was accepted; files {os.listdir(outd)}")
-            return
+            return False
         # read back
         problems = []
         got_files = sorted(os.listdir(outd))
@@ -290,8 +294,9 @@ def run_boot(seq_specs, soc, cfg, base, agg, key, label, via_main=False, sample=
                 problems.append(("slot-extent", f"{dom}: populated addresses differ from the domain's slots (e.g. extra {[hex(x) for x in extra]}, missing {len(want_addr - set(mem))})"))
     if problems:
         agg.viol(f"C07:{problems[0][0]}", f"{label}: " + "; ".join(p[1] for p in problems[:3]))
-    else:
-        agg.ok(key, f"ok:roles={len(model)}", sample=sample)
+        return False
+    agg.ok(key, f"ok:roles={len(model)}", sample=sample)
+    return True
 
 
 def check_slot(slot, inp, role):
@@ -325,6 +330,34 @@ def check_slot(slot, inp, role):
     if stored[off.value:off.value + 16] != cu:
         return ("class-id-offset", f"{role}: bytes at recorded offset {off.value} are {stored[off.value:off.value + 16].hex()}, class UUID is {cu.hex()}")
     return None
+
+
+# -- stage A2: several generations in ONE process and ONE build directory --------------------------------
+P_RUNS = [(soc, cfg, spec) for soc in ("nrf54h20", "nrf9280") for cfg in ("kconfig", "defaults", "swapped")
+          for spec in ({"role": "APP_LOCAL_1"}, {"role": "SEC_TOP", "size": "exact"}, {"role": "RAD_LOCAL_1", "signed": True})]
+
+
+def proc_init():
+    return [((), ("start",))]
+
+
+def proc_step(hist, agg, expand):
+    """a history of boot-storage generations in one interpreter and one build directory (the configuration file, the
+    input files and the output directory keep their paths, their content changes from run to run; SoC and configuration
+    mode change too): every run is judged by the same reference model as a run in a fresh process and directory"""
+    hist = tuplify(hist)
+    if hist:
+        with fresh_dir("c07p") as d:
+            for n, i in enumerate(hist):
+                soc, cfg, spec = P_RUNS[i]
+                label = (f"run {n + 1} of the history {[(P_RUNS[j][0], P_RUNS[j][1], P_RUNS[j][2]['role']) for j in hist[:n + 1]]} "
+                         f"in one process and build directory")
+                if not run_boot([dict(spec)], soc, cfg, 0x0E1ED000, agg, h8("c07p", hist[:n + 1]), label, via_main=bool(n % 2), workdir=d,
+                                sample={"history": [[P_RUNS[j][0], P_RUNS[j][1], P_RUNS[j][2]["role"]] for j in hist]} if hist == (1, 10) else None):
+                    return []
+    if not expand:
+        return []
+    return [(f"run:{P_RUNS[i][0]}/{P_RUNS[i][1]}/{P_RUNS[i][2]['role']}", hist + (i,), h8("c07ph", hist + (i,))) for i in range(len(P_RUNS))]
 
 
 # -- stage A: sequences (BFS) ------------------------------------------------------------------------
@@ -467,6 +500,8 @@ def plan(tier):
     return [
         BfsStage("sequences", seq_init, seq_step, max_depth=2 if tier == "quick" else 3,
                  rule="add-envelope sequences over 15 letters x 2 SoCs x {build configuration, defaults}"),
+        BfsStage("process-histories", proc_init, proc_step, max_depth=2 if tier == "quick" else 3,
+                 rule="histories of generations in one process and one build directory: 18 runs (2 SoCs x 3 configuration modes x 3 envelopes)"),
         CaseStage("variants", lambda: variant_cases(tier), run_variant, disjoint=True, rule="role x signed x rich x component-ID position x size x SoC"),
         CaseStage("subsets", lambda: subset_cases(tier), run_subset, disjoint=True, rule="role subsets x SoC x storage base address"),
         CaseStage("cli", lambda: cli_cases(tier), run_cli, rule="real CLI: --storage-address {default, decimal, hex} x --config-file x 1/3 --input-file"),
